@@ -23,7 +23,7 @@ RULE = ("Hypothesis-generated grids: shapes 1x1..8x8, cell size exp(U(-9,9)) "
         "tiny, -0.0 for floats), no-data values representable in the type; "
         "loaders from_header / from_stream / from_zip; header byte order I "
         "(as written) and M (raster byte-swapped and BYTEORDER line edited); "
-        "clip boxes with both corners strictly inside cells; catchments "
+        "clip boxes with corners strictly inside cells or exactly on cell edges; catchments "
         "delineated on random acyclic flow grids with and without inlets. "
         "Oracle: exact equality (==) of nrows, ncols, cellsize, corners, "
         "dtype, no-data (NaN-aware), bit-identical data for save/load and "
@@ -78,7 +78,11 @@ def grid_case(draw, tier):
                                             "from_zip", "from_header_bil"])),
             "byteorder": draw(st.sampled_from(["I", "I", "M"])),
             "clip": [draw(unit) for _ in range(4)],
-            "clipmargin": [draw(st.floats(0.05, 0.95)) for _ in range(4)],
+            # position of the box corners inside their cells; 0.0 = exactly
+            # on the left / lower edge of the cell
+            "clipmargin": [draw(st.one_of(st.floats(0.05, 0.95),
+                                          st.sampled_from([0.0, 0.0, 0.5])))
+                           for _ in range(4)],
             "poke": draw(st.integers(0, n - 1))}
 
 
@@ -269,17 +273,27 @@ def run(case, tmp):
     cells = g.coord2cell([[xl, yl], [xu, yu]])
     exp0 = (nr - 1 - rb0) * nc + c0
     exp1 = (nr - 1 - rb1) * nc + c1
-    if cells[0] == exp0 and cells[1] == exp1:
+    strict = cells[0] == exp0 and cells[1] == exp1
+    on_edge = any(v == 0.0 for v in m)
+    # a corner on a cell edge (or moved across one by rounding at a huge
+    # origin) may belong to either cell: the box is then only required to
+    # be a valid one
+    valid_box = cells[0] >= 0 and cells[1] >= 0 and \
+        cells[0] // nc >= cells[1] // nc and cells[0] % nc <= cells[1] % nc
+    if strict or (on_edge and valid_box):
         gc = g.clip(xl, yl, xu, yu)
-        r0, r1 = nr - 1 - rb1, nr - 1 - rb0
-        block = data[r0:r1 + 1, c0:c1 + 1]
-        check_data(np.ascontiguousarray(block), gc.data, "clip block")
-        if (gc.parentgrid_rows_start, gc.parentgrid_rows_end,
-                gc.parentgrid_cols_start, gc.parentgrid_cols_end) != \
-                (r0, r1, c0, c1):
-            raise Violation("clip: parent bookkeeping "
-                            f"{gc.parentgrid_rows_start, gc.parentgrid_rows_end, gc.parentgrid_cols_start, gc.parentgrid_cols_end}"
-                            f" != block {(r0, r1, c0, c1)}")
+        if strict:
+            r0, r1 = nr - 1 - rb1, nr - 1 - rb0
+            block = data[r0:r1 + 1, c0:c1 + 1]
+            check_data(np.ascontiguousarray(block), gc.data, "clip block")
+            if (gc.parentgrid_rows_start, gc.parentgrid_rows_end,
+                    gc.parentgrid_cols_start, gc.parentgrid_cols_end) != \
+                    (r0, r1, c0, c1):
+                raise Violation("clip: parent bookkeeping "
+                                f"{gc.parentgrid_rows_start, gc.parentgrid_rows_end, gc.parentgrid_cols_start, gc.parentgrid_cols_end}"
+                                f" != block {(r0, r1, c0, c1)}")
+        else:
+            labels.append("clip:corner-on-cell-edge")
         if gc.cellsize != g.cellsize or np.dtype(gc.dtype) != dt or \
                 not same_value(gc.nodata, g.nodata):
             raise Violation("clip: cellsize/dtype/nodata differ from parent")
@@ -288,10 +302,18 @@ def run(case, tmp):
         pc = g.coord2cell(xy)
         if (pc < 0).any():
             raise Violation("clip: a clipped cell centre falls outside the "
-                            "parent grid")
+                            f"parent grid (box {xl!r}, {yl!r}, {xu!r}, "
+                            f"{yu!r})")
+        # the centres do coincide with centres of the parent
+        pxy = g.cell2coord(pc)
+        if np.abs(pxy - xy).max() > 1e-6 * csz + 8 * np.spacing(
+                max(abs(case["xll"]), abs(case["yll"])) + 8 * csz):
+            raise Violation("clip: cell centres of the clipped grid do not "
+                            "coincide with cell centres of the parent")
         pv = data.flat[pc]
         check_data(np.ascontiguousarray(pv.reshape(gc.nrows, gc.ncols)),
-                   gc.data, "clip vs parent values at coinciding centres")
+                   gc.data, "clip vs parent values at coinciding centres "
+                   f"(box {xl!r}, {yl!r}, {xu!r}, {yu!r})")
         # the clipped grid (it carries parent bookkeeping) round-trips too
         gd = Grid.from_dict(json.loads(json.dumps(
             gc.to_dict(), default=lambda o: o.item()
